@@ -4,6 +4,7 @@ from .._change import Change
 from .._change import Replace
 from .._global_state import state
 from .._sentinels import undefined
+from .._utils import normalize
 from .._utils import value_to_token
 from .generic_value import GenericValue
 from .generic_value import clone
@@ -50,7 +51,8 @@ class MinMaxValue(GenericValue):
             flag = "trim"
         elif (
             self._ast_node is not None
-            and self._file._token_of_node(self._ast_node) != new_token
+            # the tokens of the node are normalized (trailing commas like in `(1,)`)
+            and self._file._token_of_node(self._ast_node) != list(normalize(new_token))
         ):
             flag = "update"
         else:
